@@ -77,6 +77,16 @@ def cases(tier):
         out.append(dict(kind='excel_eam', m=m, route='cfg'))
     for m in EK.big_models(True, tier)[::3]:
         out.append(dict(kind='excel_eam_fs', m=m, route='potable'))
+    # ADP: species that only have a density (null embedding) but do have dipole / quadrupole functions; dipole or quadrupole lists
+    # in which EVERY function involves a species that is not in the file (left over from a larger model / removed by a species filter)
+    for i, els in enumerate(EK.ordered_subsets(EK.UNIVERSE[:3], (2, 3))):
+        a_, z_ = els[0], els[-1]
+        nr, nrho = G[i % len(G)]
+        base = dict(fs=False, embed=list(els[:1]), dens=list(els), pairs=[[a_, z_]], species='builtin', nr=nr, cutoff=2.5, nrho=nrho, cutoff_rho=50.0)
+        out.append(dict(kind='adp', m=dict(base, dip=[[z_, a_], [z_, z_]], quad=[[z_, z_], [a_, z_]]), route=('cfg', 'potable')[i % 2]))
+        full = dict(base, embed=list(els))
+        for j, (dip, quad) in enumerate(((([['Mg', 'O'], [a_, 'O']]), [[a_, z_]]), ([[a_, a_]], [['O', 'O'], ['Mg', z_]]), ([['O', z_]], [['Mg', 'Mg']]))):
+            out.append(dict(kind='adp', m=dict(full, dip=dip, quad=quad), route=('cls', 'cfg', 'potable')[(i + j) % 3]))
     for i, m in enumerate(EK.label_models(False, tier)):
         up = EK.unordered_pairs(m['embed'])
         m2 = dict(m, dip=[list(p) for p in EK.orient(up[::2], 1)], quad=[list(p) for p in EK.orient(up[1::2], 2)])
